@@ -813,6 +813,18 @@ pub fn perturb<S: Setup>(
         small_val::<S>(rng) + S::E::ONE
     };
     let delta = if delta == S::E::ZERO { S::E::ONE } else { delta };
+    // one perturbation in five (extension degree >= 3): the constant coefficient stays, the higher
+    // coefficients get values that cancel in their sum (d, -d, 0, ..) — an input that only a
+    // limb-by-limb base-field check tells apart from the original
+    let delta = if S::D >= 3 && chance(rng, 1, 5) {
+        let d = 1 + rng.random::<u64>() % 1000;
+        let mut c = vec![0u64; S::D];
+        c[1] = d;
+        c[2] = S::order() - d;
+        S::el(&c)
+    } else {
+        delta
+    };
     if i < p.len() {
         p[i] += delta;
         (p, q, format!("public[{i}]"))
